@@ -174,22 +174,35 @@ func (c *Conn) deliver(subject, reply string, payload []byte, block bool) int {
 		m := &nats.Msg{Subject: subject, Reply: reply, Data: payload, Sub: s.NS}
 		if block {
 			vsched.WaitSend(s.Ch)
+			// like the real client, the message is placed on the channel under the lock that Close and
+			// Unsubscribe take (the send cannot block: WaitSend was granted and nothing ran since)
 			c.mu.Lock()
 			gone := s.dropInflight
+			if !gone {
+				s.Ch <- m
+			}
 			c.mu.Unlock()
 			if gone {
 				// the connection was closed / the subscription removed while the message was on its way
 				vsched.Note(Mon, c.canon("undeliverable "+subject))
 				continue
 			}
-			s.Ch <- m
 			n++
 		} else {
 			vsched.Touch(s.Ch)
-			select {
-			case s.Ch <- m:
+			c.mu.Lock()
+			sent := false
+			if !s.dropInflight {
+				select {
+				case s.Ch <- m:
+					sent = true
+				default:
+				}
+			}
+			c.mu.Unlock()
+			if sent {
 				n++
-			default:
+			} else {
 				c.emit("slowconsumer " + subject)
 			}
 		}
@@ -235,12 +248,14 @@ func (c *Conn) Arrive(f Inflight) bool {
 	vsched.WaitSend(f.s.Ch)
 	c.mu.Lock()
 	drop = f.s.dropInflight
+	if !drop {
+		f.s.Ch <- f.m
+	}
 	c.mu.Unlock()
 	if drop {
 		vsched.Note(Mon, c.canon("arrive-dropped "+f.m.Subject))
 		return false
 	}
-	f.s.Ch <- f.m
 	vsched.Note(Mon, c.canon("arrived "+f.m.Subject))
 	return true
 }
